@@ -30,6 +30,10 @@ Obs == /\ Ev.e = "obs"
        /\ afterOk = "resume" => Ev.vec[1] = last[1] + 1
        /\ afterOk = "start" => Ev.vec[1] = last[1] + 1
        /\ afterOk = "retire" => (Ev.vec[1] = last[1] /\ Ev.vec[5] = 0 /\ Ev.vec[6] = 1)
+       \* a thread lagging behind the global epoch: the request opens the thread's new current interval
+       /\ afterOk = "retire_lagging" => (Ev.vec[1] = last[1] /\ Ev.vec[5] = 0 /\ Ev.vec[6] = 1)
+       \* a single registered thread: executed at once
+       /\ afterOk = "retire_single" => (Ev.vec[1] = last[1] /\ Ev.vec[1] = 1 /\ Ev.vec[6] = 0)
        /\ last' = Ev.vec /\ afterFail' = FALSE /\ afterOk' = ""
        /\ UNCHANGED base
 \* after the drain phase the retired block has been freed
